@@ -463,6 +463,50 @@ pub fn cases(tier: &str, seed: u64, focus: &str) -> Vec<EncCase> {
             }
         }
     }
+    // (4b) envelopes inside envelopes, payloads that begin with a (second) head or end with a (second) trailer, in every
+    // combination of 05/06: only the outermost head and the last trailer belong to the envelope
+    if focus != "C10" {
+        let heads = [MACRO05_HEAD, MACRO06_HEAD];
+        let inner: [&[u8]; 6] = [b"", b"A", b"ABCDEF", b"12", b"\x80", b"a,b"];
+        for h1 in heads {
+            for body in inner {
+                for variant in 0..8 {
+                    let mut s = h1.to_vec();
+                    match variant {
+                        0 | 1 => {
+                            s.extend_from_slice(heads[variant]);
+                            s.extend_from_slice(body);
+                        }
+                        2 | 3 => {
+                            s.extend_from_slice(heads[variant - 2]);
+                            s.extend_from_slice(body);
+                            s.extend_from_slice(MACRO_TRAIL);
+                        }
+                        4 => {
+                            s.extend_from_slice(body);
+                            s.extend_from_slice(MACRO_TRAIL);
+                        }
+                        5 => {
+                            s.extend_from_slice(body);
+                            s.extend_from_slice(MACRO_TRAIL);
+                            s.extend_from_slice(MACRO_TRAIL);
+                        }
+                        6 => {
+                            s.extend_from_slice(body);
+                            s.extend_from_slice(heads[0]);
+                        }
+                        _ => {
+                            s.extend_from_slice(body);
+                            s.extend_from_slice(b"\x1E");
+                        }
+                    }
+                    s.extend_from_slice(MACRO_TRAIL);
+                    push_cfgs(&mut out, &mut rng, &g, "envelopeNested", &s, if focus == "C16" { 3 } else { 1 }, focus);
+                    out.push(EncCase { order: [0, 1, 2, 3], stratum: "envelopeNested", input: s, modes: 63, list: g.default.clone(), macros: true, fnc1: false, eci: -1 });
+                }
+            }
+        }
+    }
     out
 }
 
